@@ -51,6 +51,37 @@ def stone_gradient_case(viol):
     return 2
 
 
+def guard_gradient_cases(viol):
+    """jax.grad of every rate function that contains a removable singularity, AT the singular voltage (inside the
+    guard), against central finite differences taken with a step far outside the guard: the guard must carry the
+    derivative of the function it replaces (theorem C05_guards_have_the_right_derivative), not only its value."""
+    import jax
+    import jax.numpy as jnp
+    from jaxley.channels import HH
+    from jaxley.channels import pospischil as pp
+    from jaxley.channels.hh import _vtrap
+    n = 0
+    fns = [("pospischil.efun", lambda x: pp.efun(x), [0.0, 3e-7, -7e-7]),
+           ("hh._vtrap(x, 10)", lambda x: _vtrap(x, 10.0), [0.0, 4e-6, -8e-6]),
+           ("HH.m_gate alpha", lambda v: HH.m_gate(v)[0], [-40.0, -40.0 + 2e-6]),
+           ("HH.n_gate alpha", lambda v: HH.n_gate(v)[0], [-55.0, -55.0 - 3e-6])]
+    for vt in (-60.0, -63.0, -48.5):
+        fns += [(f"Na.m_gate alpha (vt={vt})", lambda v, vt=vt: pp.Na.m_gate(v, vt)[0], [vt + 13.0, vt + 13.0 + 1e-6]),
+                (f"Na.m_gate beta (vt={vt})", lambda v, vt=vt: pp.Na.m_gate(v, vt)[1], [vt + 40.0, vt + 40.0 - 2e-6]),
+                (f"K.n_gate alpha (vt={vt})", lambda v, vt=vt: pp.K.n_gate(v, vt)[0], [vt + 15.0, vt + 15.0 + 2e-6])]
+    fns += [("CaL.q_gate alpha", lambda v: pp.CaL.q_gate(v)[0], [-27.0, -27.0 + 1e-6])]
+    for name, f, points in fns:
+        for x0 in points:
+            n += 1
+            g = float(jax.grad(lambda x: f(x))(jnp.asarray(x0, dtype=jnp.float64)))
+            h = 1e-2
+            fd = float((f(jnp.asarray(x0 + h)) - f(jnp.asarray(x0 - h))) / (2 * h))      # O(h^2) ~ 1e-5 relative
+            if not (abs(g - fd) <= 1e-3 * max(abs(fd), 1e-3)):
+                viol.append({"kind": "jax.grad of a rate function at its removable singularity differs from the derivative of the function (central differences taken outside the guard)",
+                             "function": name, "at": x0, "jax_grad": g, "finite_difference": fd, "finding_class": None})
+    return n
+
+
 def run(ctx):
     import numpy as np
     import jax
@@ -135,9 +166,18 @@ def run(ctx):
                         b_big = max(range(nb), key=lambda b: counts[b])
                         cell.branch(sorted([b_small, b_big])).make_trainable("HH_n")
                         chosen = [k for k in chosen if k != "HH_n"]
+                forced = {}
+                if mi == 0:
+                    # always: one PARAMETER shared per branch over branches of unequal size (2 vs 3 compartments): the
+                    # index matrix of the smaller group is padded with a repeated index, and its cotangent must count once
+                    pk = "HH_gNa" if use_hh else "Leak_gLeak"
+                    chosen = ["radius", pk] + [k for k in chosen if k not in ("radius", pk)][:1]
+                    forced = {"radius": [0, 1], pk: [1, 2]}
                 for key in chosen:
                     how = rng.choice(["all", "branches", "comp"])
-                    if how == "all":
+                    if key in forced:
+                        cell.branch(forced[key]).make_trainable(key)
+                    elif how == "all":
                         cell.make_trainable(key)
                     elif how == "branches" and nb >= 2:
                         cell.branch(sorted(rng.sample(range(nb), 2))).make_trainable(key)      # shared, unequal groups
@@ -155,7 +195,7 @@ def run(ctx):
                 with quiet():
                     out = jx.integrate(cell, p, delta_t=0.025, solver=solver, voltage_solver=backend, checkpoint_lengths=cl)
                 return jnp.sum((out[:, 1:] * 1e-2 - target) ** 2)
-            g = fd_check(loss, params, case, nprobe=8)
+            g = fd_check(loss, params, case, nprobe=8 if mi else 12)
             if len(samples) < 2:
                 samples.append(dict(case, grad=[np.asarray(x).tolist() for x in jax.tree_util.tree_leaves(g)][:3]))
             gl = np.concatenate([np.asarray(x).reshape(-1) for x in jax.tree_util.tree_leaves(g)])
@@ -235,6 +275,11 @@ def run(ctx):
         except Exception as ex:
             import traceback
             viol.append({"kind": "differentiating a network raised", "error": repr(ex)[:300], "trace": traceback.format_exc()[-600:]})
+    try:
+        evals += guard_gradient_cases(viol)
+    except Exception as ex:
+        import traceback
+        viol.append({"kind": "guard gradient cases raised", "error": repr(ex)[:300], "trace": traceback.format_exc()[-500:]})
     try:
         evals += stone_gradient_case(viol)
     except Exception as ex:
